@@ -117,8 +117,9 @@ Proof.
   - apply deliver_err_frame; assumption.
 Qed.
 
-(* the hypothesis 8 <= rbuf is necessary: with a smaller buffer (only a hostile Acknowledge can cause it) the
-   very first slice expression panics — that case belongs to C13 *)
+(* the hypothesis 8 <= rbuf is necessary: with a smaller buffer the very first slice expression panics.  Since
+   /repo commit b35544e a peer can no longer cause this (the client keeps its own receive buffer size; HEL/ACK
+   buffer sizes below 8192 are rejected, see C06); only a local configuration ReceiveBufSize < 8 reaches it. *)
 Theorem C05_small_buffer_panics : forall rbuf (s : stream),
   rbuf < 8 -> fst (receive rbuf s) = Panic PSliceBounds.
 Proof. exact receive_small_buffer. Qed.
